@@ -38,6 +38,8 @@ type fn struct {
 	ptypes   []ity
 	result   ity
 	named    string // named result, or ""
+	multi    []string // several named results (tuple-valued function)
+	mtypes   []ity
 	hasLoop  bool   // own body contains a loop
 	needFuel bool   // hasLoop or calls a function that needs fuel
 	calls    []string
@@ -83,6 +85,15 @@ func typeOfExpr(x ast.Expr) (ity, bool) {
 }
 
 func cv(name string) string { return "v_" + name }
+
+// fname is the Gallina name of a translated function (Go names that collide with common Coq names get a suffix)
+func fname(name string) string {
+	switch name {
+	case "id", "fst", "snd", "length", "map", "app", "rev", "eq", "not", "and", "or", "S", "O", "nat", "bool", "list", "option", "fix", "fun", "match", "end", "in", "let", "if", "then", "else", "at", "as", "return", "forall", "exists", "Type", "Prop", "Set", "min", "max", "pred", "succ":
+		return name + "_"
+	}
+	return name
+}
 
 // ---- types of expressions ----
 
@@ -253,6 +264,9 @@ func (t *tr) exprZ(e ast.Expr, en env, want ity) string {
 		}
 		if id, ok := v.Fun.(*ast.Ident); ok {
 			if f, ok := t.fns[id.Name]; ok {
+				if len(f.multi) > 0 {
+					fail(t.pos(e), "call of the tuple-valued function %s inside an expression", id.Name)
+				}
 				if len(v.Args) != len(f.params) {
 					fail(t.pos(e), "call of %s with %d arguments", id.Name, len(v.Args))
 				}
@@ -264,7 +278,7 @@ func (t *tr) exprZ(e ast.Expr, en env, want ity) string {
 					names = append(names, n)
 					fmt.Fprintf(&sb, "%s <- %s ;; ", n, t.exprZ(a, en, f.ptypes[i]))
 				}
-				sb.WriteString(id.Name)
+				sb.WriteString(fname(id.Name))
 				if f.needFuel {
 					sb.WriteString(" fuel")
 				}
@@ -472,6 +486,24 @@ func (t *tr) stmts(list []ast.Stmt, en env, depth int, k func(env) string) strin
 		}
 		return assign(name, ty, rhs, en)
 	case *ast.ReturnStmt:
+		if len(t.cur.multi) > 0 {
+			if len(v.Results) == 0 {
+				return t.tupleOfNamed()
+			}
+			if len(v.Results) != len(t.cur.multi) {
+				fail(t.pos(s), "return of %d values", len(v.Results))
+			}
+			var sb strings.Builder
+			var names []string
+			sb.WriteString("(")
+			for i, r := range v.Results {
+				n := t.tmp()
+				names = append(names, n)
+				fmt.Fprintf(&sb, "%s <- %s ;; ", n, t.exprZ(r, en, t.cur.mtypes[i]))
+			}
+			sb.WriteString("Val (" + strings.Join(names, ", ") + "))")
+			return sb.String()
+		}
 		switch len(v.Results) {
 		case 0:
 			if t.cur.named == "" {
@@ -571,12 +603,20 @@ func restrict(inner, outer env) env {
 	return r
 }
 
+func (t *tr) tupleOfNamed() string {
+	var names []string
+	for _, n := range t.cur.multi {
+		names = append(names, cv(n))
+	}
+	return "(Val (" + strings.Join(names, ", ") + "))"
+}
+
 func (t *tr) function(f *fn) string {
 	t.cur = f
 	en := env{}
 	var sb strings.Builder
 	fmt.Fprintf(&sb, "(* %s, sha256 of the source text %x\n%s\n*)\n", f.file, sha256.Sum256([]byte(f.src)), strings.ReplaceAll(f.src, "*)", "* )"))
-	fmt.Fprintf(&sb, "Definition %s", f.decl.Name.Name)
+	fmt.Fprintf(&sb, "Definition %s", fname(f.decl.Name.Name))
 	if f.needFuel {
 		sb.WriteString(" (fuel : nat)")
 	}
@@ -584,12 +624,23 @@ func (t *tr) function(f *fn) string {
 		fmt.Fprintf(&sb, " (%s : Z)", cv(p))
 		en[p] = f.ptypes[i]
 	}
-	sb.WriteString(" : res Z :=\n")
+	if len(f.multi) > 0 {
+		sb.WriteString(" : res (" + strings.TrimSuffix(strings.Repeat("Z * ", len(f.multi)), " * ") + ") :=\n")
+		for i, n := range f.multi {
+			en[n] = f.mtypes[i]
+			fmt.Fprintf(&sb, " let %s := 0 in\n", cv(n))
+		}
+	} else {
+		sb.WriteString(" : res Z :=\n")
+	}
 	if f.named != "" {
 		en[f.named] = f.result
 		fmt.Fprintf(&sb, " let %s := 0 in\n", cv(f.named))
 	}
 	body := t.stmts(f.decl.Body.List, en, 0, func(env) string {
+		if len(f.multi) > 0 {
+			return t.tupleOfNamed()
+		}
 		if f.named == "" {
 			fail(t.pos(f.decl), "function body can end without a return")
 		}
@@ -653,8 +704,8 @@ func main() {
 						f.ptypes = append(f.ptypes, ty)
 					}
 				}
-				if found.Type.Results == nil || len(found.Type.Results.List) != 1 || len(found.Type.Results.List[0].Names) > 1 {
-					fail(t.pos(found), "function without exactly one result")
+				if found.Type.Results == nil || len(found.Type.Results.List) != 1 {
+					fail(t.pos(found), "function without exactly one result group")
 				}
 				rf := found.Type.Results.List[0]
 				ty, ok := typeOfExpr(rf.Type)
@@ -664,6 +715,12 @@ func main() {
 				f.result = ty
 				if len(rf.Names) == 1 {
 					f.named = rf.Names[0].Name
+				}
+				if len(rf.Names) > 1 {
+					for _, n := range rf.Names {
+						f.multi = append(f.multi, n.Name)
+						f.mtypes = append(f.mtypes, ty)
+					}
 				}
 				ast.Inspect(found.Body, func(n ast.Node) bool {
 					switch v := n.(type) {
